@@ -73,11 +73,59 @@ pub enum Ans {
     Analysis(Arc<SymbolTable>, Arc<Vec<Diagnostic>>),
     Diags(Arc<Vec<Diagnostic>>),
     Syms(Arc<SymbolTable>),
-    Ty(TypeId),
+    /// the type id and, for the id-insensitive form, its rendering through the file's own table
+    Ty(TypeId, Option<String>),
     Expr(Option<u32>),
 }
 
-pub fn ask(db: &Database, kind: Kind, file: FileId, arg: u32) -> Ans {
+/// Id-insensitive rendering of a type (type ids are numbered in import order).
+fn type_str(t: &SymbolTable, id: TypeId, depth: u32) -> String {
+    use trust_hir::Type;
+    if let Some(n) = id.builtin_name() {
+        return n.to_string();
+    }
+    if depth > 6 {
+        return "…".into();
+    }
+    match t.type_by_id(id) {
+        None => format!("?{}", id.0),
+        Some(ty) => match ty {
+            Type::Array { element, dimensions } => {
+                format!("ARRAY{dimensions:?} OF {}", type_str(t, *element, depth + 1))
+            }
+            Type::Struct { name, fields } => format!(
+                "STRUCT {name} {{{}}}",
+                fields
+                    .iter()
+                    .map(|f| format!("{}:{}", f.name, type_str(t, f.type_id, depth + 1)))
+                    .collect::<Vec<_>>()
+                    .join(",")
+            ),
+            Type::Union { name, variants } => format!(
+                "UNION {name} {{{}}}",
+                variants
+                    .iter()
+                    .map(|f| format!("{}:{}", f.name, type_str(t, f.type_id, depth + 1)))
+                    .collect::<Vec<_>>()
+                    .join(",")
+            ),
+            Type::Enum { name, base, values } => {
+                format!("ENUM {name} {} {values:?}", type_str(t, *base, depth + 1))
+            }
+            Type::Pointer { target } => format!("POINTER TO {}", type_str(t, *target, depth + 1)),
+            Type::Reference { target } => format!("REF_TO {}", type_str(t, *target, depth + 1)),
+            Type::Subrange { base, lower, upper } => {
+                format!("{}({lower}..{upper})", type_str(t, *base, depth + 1))
+            }
+            Type::Alias { name, target } => {
+                format!("ALIAS {name} = {}", type_str(t, *target, depth + 1))
+            }
+            other => format!("{other:?}"),
+        },
+    }
+}
+
+pub fn ask(db: &Database, kind: Kind, file: FileId, arg: u32, visible: bool) -> Ans {
     match kind {
         Kind::Analyze => {
             let a = db.analyze(file);
@@ -85,7 +133,11 @@ pub fn ask(db: &Database, kind: Kind, file: FileId, arg: u32) -> Ans {
         }
         Kind::Diagnostics => Ans::Diags(db.diagnostics(file)),
         Kind::FileSymbols => Ans::Syms(db.file_symbols(file)),
-        Kind::TypeOf => Ans::Ty(db.type_of(file, arg)),
+        Kind::TypeOf => {
+            let ty = db.type_of(file, arg);
+            let name = visible.then(|| type_str(&db.analyze(file).symbols, ty, 0));
+            Ans::Ty(ty, name)
+        }
         Kind::ExprIdAt => Ans::Expr(db.expr_id_at_offset(file, arg)),
     }
 }
@@ -168,12 +220,91 @@ fn dump_symbols(out: &mut String, t: &SymbolTable, ren: &dyn Fn(u32) -> String) 
     type_ids.dedup();
     for id in type_ids {
         if let Some(ty) = t.type_by_id(TypeId(id)) {
-            let _ = writeln!(out, "T {} {:?} {:?}", id, t.type_name(TypeId(id)), ty);
+            let _ = writeln!(out, "T {} {:?}", id, ty);
         }
     }
 }
 
+/// Id-insensitive dump of a symbol table (Project layer): the *set* of symbols described by name,
+/// kind, rendered type, range, origin key and parent name.  Symbol and type ids are numbered in
+/// import order and are meaningless to a user, so they are left out.
+fn dump_symbols_visible(out: &mut String, t: &SymbolTable, ren: &dyn Fn(u32) -> String) {
+    use trust_hir::symbols::SymbolKind;
+    let mut rows: Vec<String> = Vec::new();
+    for s in t.iter() {
+        let origin = match s.origin {
+            Some(o) => ren(o.file_id.0),
+            None => "-".into(),
+        };
+        let kind = match &s.kind {
+            SymbolKind::Function { return_type, parameters } => format!(
+                "Function({};{})",
+                type_str(t, *return_type, 0),
+                parameters
+                    .iter()
+                    .map(|p| t.get(*p).map(|x| x.name.to_string()).unwrap_or_else(|| "?".into()))
+                    .collect::<Vec<_>>()
+                    .join(",")
+            ),
+            SymbolKind::Method { return_type, parameters } => format!(
+                "Method({};{})",
+                return_type.map(|r| type_str(t, r, 0)).unwrap_or_else(|| "-".into()),
+                parameters
+                    .iter()
+                    .map(|p| t.get(*p).map(|x| x.name.to_string()).unwrap_or_else(|| "?".into()))
+                    .collect::<Vec<_>>()
+                    .join(",")
+            ),
+            SymbolKind::Property { prop_type, has_get, has_set } => {
+                format!("Property({};{has_get};{has_set})", type_str(t, *prop_type, 0))
+            }
+            other => format!("{other:?}"),
+        };
+        let parent = s
+            .parent
+            .and_then(|p| t.get(p))
+            .map(|p| p.name.to_string())
+            .unwrap_or_else(|| "-".into());
+        rows.push(format!(
+            "V {:?} {kind} ty={} addr={:?} vis={:?} mods={:?} {}..{} origin={origin} parent={parent} ext={:?} impl={:?}",
+            s.name.as_str(),
+            type_str(t, s.type_id, 0),
+            s.direct_address,
+            s.visibility,
+            s.modifiers,
+            u32::from(s.range.start()),
+            u32::from(s.range.end()),
+            t.extends_name(s.id),
+            t.implements_names(s.id),
+        ));
+    }
+    rows.sort();
+    for r in rows {
+        out.push_str(&r);
+        out.push('\n');
+    }
+}
+
 impl Ans {
+    /// The id-insensitive form used at the Project layer.
+    pub fn dump_visible(&self, ren: &dyn Fn(u32) -> String) -> String {
+        let mut s = String::new();
+        match self {
+            Ans::Analysis(t, d) => {
+                dump_symbols_visible(&mut s, t, ren);
+                dump_diags(&mut s, d, ren);
+            }
+            Ans::Diags(d) => dump_diags(&mut s, d, ren),
+            Ans::Syms(t) => dump_symbols_visible(&mut s, t, ren),
+            Ans::Ty(_, name) => {
+                let _ = writeln!(s, "Y {name:?}");
+            }
+            Ans::Expr(e) => {
+                let _ = writeln!(s, "E {e:?}");
+            }
+        }
+        s
+    }
     pub fn dump(&self, ren: &dyn Fn(u32) -> String) -> String {
         let mut s = String::new();
         match self {
@@ -183,7 +314,7 @@ impl Ans {
             }
             Ans::Diags(d) => dump_diags(&mut s, d, ren),
             Ans::Syms(t) => dump_symbols(&mut s, t, ren),
-            Ans::Ty(t) => {
+            Ans::Ty(t, _) => {
                 let _ = writeln!(s, "Y {}", t.0);
             }
             Ans::Expr(e) => {
@@ -197,7 +328,7 @@ impl Ans {
             Ans::Analysis(t, d) => t.len() + d.len(),
             Ans::Diags(d) => d.len(),
             Ans::Syms(t) => t.len(),
-            Ans::Ty(t) => t.0 as usize,
+            Ans::Ty(t, _) => t.0 as usize,
             Ans::Expr(e) => e.map(|v| v as usize + 1).unwrap_or(0),
         }
     }
@@ -690,9 +821,9 @@ fn judge(
     structural: bool,
 ) -> Verdict {
     let r = catch_unwind(AssertUnwindSafe(|| {
-        let a1 = ask(db, kind, FileId(file), arg);
-        let a2 = ask(db, kind, FileId(file), arg);
-        let af = ask(fresh, kind, FileId(fresh_file), arg);
+        let a1 = ask(db, kind, FileId(file), arg, !structural);
+        let a2 = ask(db, kind, FileId(file), arg, !structural);
+        let af = ask(fresh, kind, FileId(fresh_file), arg, !structural);
         (a1, a2, af)
     }));
     match r {
@@ -705,12 +836,16 @@ fn judge(
             detail: None,
         },
         Ok((a1, a2, af)) => {
-            let d1 = a1.dump(ren_inc);
-            let df = af.dump(ren_fresh);
+            let (d1, df) = if structural {
+                (a1.dump(ren_inc), af.dump(ren_fresh))
+            } else {
+                (a1.dump_visible(ren_inc), af.dump_visible(ren_fresh))
+            };
             // at the Database layer: structural equality of the real values AND of the dumps;
             // at the Project layer ids are renamed, so only the dumps can be compared
             let fresh_ok = d1 == df && (!structural || a1 == af);
-            let repeat_ok = a1 == a2 && d1 == a2.dump(ren_inc);
+            let d2 = if structural { a2.dump(ren_inc) } else { a2.dump_visible(ren_inc) };
+            let repeat_ok = a1 == a2 && d1 == d2;
             Verdict {
                 fresh: fresh_ok,
                 repeat: repeat_ok,
@@ -1011,9 +1146,41 @@ fn fresh_project(order: &[usize], finals: &BTreeMap<usize, String>) -> Project {
     p
 }
 
-fn run_proj_case(n: u64, rng: &mut Rng, steps: usize, corpus: &[Slot], out: &mut Out) {
+#[derive(Clone)]
+enum POp {
+    Set(usize, String),
+    Rm(usize),
+    Q(Kind, usize, Option<u32>),
+}
+
+/// The recorded witness of the Project-layer finding (known_findings.json, `C13-project-readd-id-order`):
+/// two files define `Conv` with different signatures, a third uses it; removing and re-adding the
+/// first file moves it behind the second in file-id order, so the user now sees the other `Conv`.
+fn witness_script() -> Vec<POp> {
+    let a = "FUNCTION Conv : INT\nVAR_INPUT\n    x : INT;\nEND_VAR\nConv := x;\nEND_FUNCTION\n";
+    let b = "FUNCTION Conv : BOOL\nVAR_INPUT\n    x : BOOL;\nEND_VAR\nConv := x;\nEND_FUNCTION\n";
+    let c = "PROGRAM User\nVAR\n    a : INT;\nEND_VAR\na := Conv(a);\nEND_PROGRAM\n";
+    vec![
+        POp::Set(0, a.into()),
+        POp::Set(1, b.into()),
+        POp::Set(2, c.into()),
+        POp::Q(Kind::Diagnostics, 2, Some(0)),
+        POp::Rm(0),
+        POp::Set(0, a.into()),
+        POp::Q(Kind::Diagnostics, 2, Some(0)),
+    ]
+}
+
+fn run_proj_case(
+    n: u64,
+    rng: &mut Rng,
+    steps: usize,
+    corpus: &[Slot],
+    out: &mut Out,
+    forced: Option<Vec<POp>>,
+) {
     // duplicate global names across files half of the time: that is where id order can matter
-    let pool = if rng.bool() {
+    let pool = if forced.is_some() || rng.bool() {
         Pool {
             slots: theme_dups(),
             theme: "dups",
@@ -1021,134 +1188,165 @@ fn run_proj_case(n: u64, rng: &mut Rng, steps: usize, corpus: &[Slot], out: &mut
     } else {
         pick_pool(rng, corpus)
     };
-    out.count(&format!("proj_theme_{}", pool.theme));
+    if forced.is_none() {
+        out.count(&format!("proj_theme_{}", pool.theme));
+    }
     let nkeys = pool.slots.len().min(5).max(1);
     out.line(format!("case {n}"));
     out.line("stream proj");
+    if forced.is_some() {
+        out.line("tag witness");
+    }
     let mut texts = Texts::default();
     let mut proj = Project::new();
     let mut finals: BTreeMap<usize, String> = BTreeMap::new();
     let mut readded = false;
     let mut removed: Vec<usize> = Vec::new();
     let mut aborted = false;
+    let steps = forced.as_ref().map(|f| f.len()).unwrap_or(steps);
     for step in 0..steps {
-        let r = rng.below(100);
-        if step < nkeys && r < 80 || r < 35 {
-            let k = if step < nkeys { step } else { rng.below(nkeys as u64) as usize };
-            let text = next_text(rng, &pool, k, finals.get(&k).map(|s| s.as_str()), out);
-            let ti = texts.intern(&text, out);
-            out.line(format!("pset {k} {ti}"));
-            if !finals.contains_key(&k) && removed.contains(&k) {
-                readded = true;
-                out.count("proj_readd");
+        let op = match &forced {
+            Some(f) => f[step].clone(),
+            None => {
+                let r = rng.below(100);
+                if step < nkeys && r < 80 || r < 35 {
+                    let k = if step < nkeys { step } else { rng.below(nkeys as u64) as usize };
+                    POp::Set(k, next_text(rng, &pool, k, finals.get(&k).map(|s| s.as_str()), out))
+                } else if r < 55 {
+                    POp::Rm(rng.below(nkeys as u64 + 1) as usize) // nkeys = a key never added
+                } else {
+                    POp::Q(*rng.pick(&KINDS), rng.below(nkeys as u64) as usize, None)
+                }
             }
-            let r = catch_unwind(AssertUnwindSafe(|| proj.set_source_text(key_of(k), text.clone())));
-            finals.insert(k, text);
-            match r {
-                Err(_) => {
+        };
+        match op {
+            POp::Set(k, text) => {
+                let ti = texts.intern(&text, out);
+                out.line(format!("pset {k} {ti}"));
+                if !finals.contains_key(&k) && removed.contains(&k) {
+                    readded = true;
+                    out.count("proj_readd");
+                }
+                let r = catch_unwind(AssertUnwindSafe(|| {
+                    proj.set_source_text(key_of(k), text.clone());
+                }));
+                finals.insert(k, text);
+                if r.is_err() {
                     out.line("impl panic");
+                    out.line(format!("#p set {k} 0 same_order=1 key_order=1 repeat=1 panic=1 order_differs=0"));
                     aborted = true;
                     break;
                 }
-                Ok(id) => {
-                    let _ = id;
+            }
+            POp::Rm(k) => {
+                out.line(format!("prm {k}"));
+                if finals.remove(&k).is_some() && !removed.contains(&k) {
+                    removed.push(k);
                 }
-            }
-        } else if r < 55 {
-            let k = rng.below(nkeys as u64 + 1) as usize; // nkeys = a key never added
-            out.line(format!("prm {k}"));
-            if finals.remove(&k).is_some() && !removed.contains(&k) {
-                removed.push(k);
-            }
-            let r = catch_unwind(AssertUnwindSafe(|| proj.remove_source(&key_of(k))));
-            if r.is_err() {
-                out.line("impl panic");
-                aborted = true;
-                break;
-            }
-        } else {
-            let k = rng.below(nkeys as u64) as usize;
-            let kind = *rng.pick(&KINDS);
-            let Some(fid) = proj.file_id_for_key(&key_of(k)) else {
-                out.line(format!("pq {} {k} 0", kind.name()));
-                out.line(format!(
-                    "impl nokey ids={} {}",
-                    render_ids(&project_ids(&proj)),
-                    render_view(proj.database(), &texts)
-                ));
-                continue;
-            };
-            let arg = pick_arg(rng, kind, finals.get(&k).map(|s| s.as_str()), proj.database(), fid.0);
-            out.line(format!("pq {} {k} {arg}", kind.name()));
-            // (a) fresh project loaded in the order that reproduces the relative id order
-            let ids = project_ids(&proj);
-            let mut by_id: Vec<(u32, usize)> = ids.iter().map(|(k, id)| (*id, *k)).collect();
-            by_id.sort();
-            let same_order: Vec<usize> = by_id.iter().map(|(_, k)| *k).collect();
-            let key_order: Vec<usize> = finals.keys().copied().collect();
-            let verdicts = catch_unwind(AssertUnwindSafe(|| {
-                let fa = fresh_project(&same_order, &finals);
-                let fb = fresh_project(&key_order, &finals);
-                let ren = |p: &Project| {
-                    let m: HashMap<u32, usize> = project_ids(p).into_iter().map(|(k, id)| (id, k)).collect();
-                    move |id: u32| match m.get(&id) {
-                        Some(k) => format!("k{k}"),
-                        None => format!("?{id}"),
-                    }
-                };
-                let ri = ren(&proj);
-                let ra = ren(&fa);
-                let rb = ren(&fb);
-                let ida = fa.file_id_for_key(&key_of(k)).map(|f| f.0).unwrap_or(u32::MAX);
-                let idb = fb.file_id_for_key(&key_of(k)).map(|f| f.0).unwrap_or(u32::MAX);
-                let va = judge(proj.database(), fa.database(), kind, fid.0, arg, &ri, &ra, ida, false);
-                let vb = judge(proj.database(), fb.database(), kind, fid.0, arg, &ri, &rb, idb, false);
-                (va, vb)
-            }));
-            match verdicts {
-                Err(_) => {
+                let r = catch_unwind(AssertUnwindSafe(|| {
+                    proj.remove_source(&key_of(k));
+                }));
+                if r.is_err() {
                     out.line("impl panic");
+                    out.line(format!("#p rm {k} 0 same_order=1 key_order=1 repeat=1 panic=1 order_differs=0"));
                     aborted = true;
                     break;
                 }
-                Ok((va, vb)) => {
+            }
+            POp::Q(kind, k, arg) => {
+                let Some(fid) = proj.file_id_for_key(&key_of(k)) else {
+                    out.line(format!("pq {} {k} 0", kind.name()));
                     out.line(format!(
-                        "impl ids={} {} reads={}",
+                        "impl nokey ids={} {}",
                         render_ids(&project_ids(&proj)),
-                        render_view(proj.database(), &texts),
-                        render_reads(proj.database(), &texts, kind, fid.0)
+                        render_view(proj.database(), &texts)
                     ));
-                    let order_differs = same_order != key_order;
-                    out.line(format!(
-                        "#p {} {k} {arg} same_order={} key_order={} repeat={} panic={} order_differs={}",
-                        kind.name(),
-                        u8::from(va.fresh),
-                        u8::from(vb.fresh),
-                        u8::from(va.repeat),
-                        u8::from(va.panic || vb.panic),
-                        u8::from(order_differs)
-                    ));
-                    out.count("proj_queries");
-                    if !va.fresh {
-                        out.count("proj_differs_from_fresh_same_order");
-                        if let Some((a, b)) = va.detail {
-                            out.line(format!("#x inc {}", hex(a.as_bytes())));
-                            out.line(format!("#x fresh_same_order {}", hex(b.as_bytes())));
+                    continue;
+                };
+                let arg = arg.unwrap_or_else(|| {
+                    pick_arg(rng, kind, finals.get(&k).map(|s| s.as_str()), proj.database(), fid.0)
+                });
+                out.line(format!("pq {} {k} {arg}", kind.name()));
+                // (a) fresh project loaded in the order that reproduces the relative id order,
+                // (b) fresh project loaded in key order
+                let ids = project_ids(&proj);
+                let mut by_id: Vec<(u32, usize)> = ids.iter().map(|(k, id)| (*id, *k)).collect();
+                by_id.sort();
+                let same_order: Vec<usize> = by_id.iter().map(|(_, k)| *k).collect();
+                let key_order: Vec<usize> = finals.keys().copied().collect();
+                let verdicts = catch_unwind(AssertUnwindSafe(|| {
+                    let fa = fresh_project(&same_order, &finals);
+                    let fb = fresh_project(&key_order, &finals);
+                    let ren = |p: &Project| {
+                        let m: HashMap<u32, usize> =
+                            project_ids(p).into_iter().map(|(k, id)| (id, k)).collect();
+                        move |id: u32| match m.get(&id) {
+                            Some(k) => format!("k{k}"),
+                            None => format!("?{id}"),
                         }
+                    };
+                    let ri = ren(&proj);
+                    let ra = ren(&fa);
+                    let rb = ren(&fb);
+                    let ida = fa.file_id_for_key(&key_of(k)).map(|f| f.0).unwrap_or(u32::MAX);
+                    let idb = fb.file_id_for_key(&key_of(k)).map(|f| f.0).unwrap_or(u32::MAX);
+                    let va = judge(proj.database(), fa.database(), kind, fid.0, arg, &ri, &ra, ida, false);
+                    let vb = judge(proj.database(), fb.database(), kind, fid.0, arg, &ri, &rb, idb, false);
+                    (va, vb)
+                }));
+                match verdicts {
+                    Err(_) => {
+                        out.line("impl panic");
+                        out.line(format!(
+                            "#p {} {k} {arg} same_order=1 key_order=1 repeat=1 panic=1 order_differs=0",
+                            kind.name()
+                        ));
+                        aborted = true;
+                        break;
                     }
-                    if !vb.fresh {
-                        out.count("proj_differs_from_fresh_key_order");
-                        if let Some((a, b)) = vb.detail {
-                            out.line(format!("#x inc {}", hex(a.as_bytes())));
-                            out.line(format!("#x fresh_key_order {}", hex(b.as_bytes())));
+                    Ok((va, vb)) => {
+                        out.line(format!(
+                            "impl ids={} {} reads={}",
+                            render_ids(&project_ids(&proj)),
+                            render_view(proj.database(), &texts),
+                            render_reads(proj.database(), &texts, kind, fid.0)
+                        ));
+                        let order_differs = same_order != key_order;
+                        out.line(format!(
+                            "#p {} {k} {arg} same_order={} key_order={} repeat={} panic={} order_differs={}",
+                            kind.name(),
+                            u8::from(va.fresh),
+                            u8::from(vb.fresh),
+                            u8::from(va.repeat),
+                            u8::from(va.panic || vb.panic),
+                            u8::from(order_differs)
+                        ));
+                        out.count("proj_queries");
+                        if !va.fresh {
+                            out.count("proj_differs_from_fresh_same_order");
+                            if let Some((a, b)) = va.detail {
+                                out.line(format!("#x inc {}", hex(a.as_bytes())));
+                                out.line(format!("#x fresh_same_order {}", hex(b.as_bytes())));
+                            }
                         }
-                    }
-                    if order_differs {
-                        out.count("proj_queries_with_permuted_ids");
+                        if !vb.fresh {
+                            out.count("proj_differs_from_fresh_key_order");
+                            if let Some((a, b)) = vb.detail {
+                                out.line(format!("#x inc {}", hex(a.as_bytes())));
+                                out.line(format!("#x fresh_key_order {}", hex(b.as_bytes())));
+                            }
+                        }
+                        if order_differs {
+                            out.count("proj_queries_with_permuted_ids");
+                        }
+                        if va.panic || vb.panic {
+                            aborted = true;
+                            break;
+                        }
                     }
                 }
+                continue;
             }
-            continue;
         }
         out.line(format!(
             "impl ids={} {}",
@@ -1196,13 +1394,19 @@ pub fn run(args: &Args) -> i32 {
     for n in args.case_numbers() {
         let mut rng = Rng::for_case(args.seed, n);
         if n % proj_every == proj_every - 1 {
-            run_proj_case(n, &mut rng, steps, &corpus, &mut out);
+            run_proj_case(n, &mut rng, steps, &corpus, &mut out, None);
             out.count("cases_proj");
         } else {
             run_db_case(n, &mut rng, steps, &corpus, &mut out);
             out.count("cases_db");
         }
         out.count("cases");
+    }
+    // the recorded witness of the Project-layer finding runs last (case number = `--cases`)
+    if args.only.is_none() || args.only == Some(args.cases) {
+        let mut rng = Rng::for_case(args.seed, args.cases);
+        run_proj_case(args.cases, &mut rng, 0, &corpus, &mut out, Some(witness_script()));
+        out.count("cases_witness");
     }
     let _ = std::panic::take_hook();
     out.finish(&args.out);
